@@ -547,9 +547,10 @@ def oracle_guarantee(case, res):
             continue
         if r.get("dispatch") != r.get("expected_class"):
             viol("registered type %s parses to %s, not to the registered class" % (tag, r.get("dispatch")), r)
-        if r.get("roundtrip_equal") is not True or r.get("roundtrip_text_equal") is not True or r.get("values_kept") is not True:
-            viol("registered type %s does not round-trip (equal=%s text=%s values=%s)"
-                 % (tag, r.get("roundtrip_equal"), r.get("roundtrip_text_equal"), r.get("values_kept")), r)
+        if r.get("roundtrip_equal") is not True or r.get("roundtrip_text_equal") is not True or r.get("values_kept") is not True \
+                or r.get("roundtrip_same_class") is not True:
+            viol("registered type %s does not round-trip (== %s, text byte for byte %s, values kept %s, same class %s)"
+                 % (tag, r.get("roundtrip_equal"), r.get("roundtrip_text_equal"), r.get("values_kept"), r.get("roundtrip_same_class")), r)
         si = r.get("side_instance")
         if si is not None:
             want_type = "new-sco" if r.get("kind") == "observable" else "new-sdo"
